@@ -11,7 +11,7 @@ for f in sorted(pathlib.Path("/verif/harness/props").glob("c[0-9][0-9].py")):
         mod = importlib.import_module(f"harness.props.{f.stem}")
     except Exception as e:
         print(prop, "import failed", e); continue
-    anchors = getattr(mod, "ANCHORS", None)
+    anchors = list(getattr(mod, "ANCHORS", None) or []) + drift.file_anchors(prop)
     if anchors:
         drift.update(prop, anchors)
         missing = [k for k, h in drift.current(anchors).items() if h is None]
